@@ -182,10 +182,14 @@ def oracle(case, obs):
             if obs["kind"] == "closed_partial":
                 if obs["partial"] != stream[:obs["consumed"]]:
                     bad.append(("recv-partial-wrong", "partialData is not the bytes received so far"))
-                if len(obs["partial"]) >= size:
+                fatal = last is not None and last[0] == "X" and last[1] not in REQUIRED
+                if len(obs["partial"]) >= size and not fatal:
                     bad.append(("recv-partial-not-short", "partialData has %d bytes for a %d byte read" % (len(obs["partial"]), size)))
-                if obs.get("last_recv_len") != 0:
-                    bad.append(("recv-spurious-close", "connection-closed (with partial data) raised although the last recv did not report end of stream"))
+                if obs.get("last_recv_len") != 0 and not fatal:
+                    # (a connection-closed error for a fatal socket error may carry the bytes so far as well)
+                    bad.append(("recv-spurious-close", "connection-closed (with partial data) raised although the last recv neither reported end of stream nor failed fatally"))
+                if last is not None and last[0] == "X" and last[1] in REQUIRED:
+                    bad.append(("recv-retryable-fatal", "retryable errno %s ended the read" % last[1]))
             if obs["kind"] == "closed":
                 if last is not None and last[0] == "X" and last[1] in REQUIRED:
                     bad.append(("recv-retryable-fatal", "retryable errno %s ended the read" % last[1]))
